@@ -1,27 +1,33 @@
 (* Classes of the open known findings about edit scripts, as Gallina predicates on a case
-   (used to classify a failing case; the same predicates are the carve-outs of the partial theorems). *)
+   (used to classify a failing case; the same notions are the carve-outs of the partial theorems of C02:
+   EqualProofs.script_failures_classified proves that every failure of "cost 0 <-> equal as data" of the
+   model lies in one of the two classes). *)
 From Coq Require Import ZArith List Bool.
 Require Import GT.PyBase GT.Data GT.ScriptSpec.
+Require Export GT.EqualSpec.
 Import ListNotations.
 Open Scope Z_scope.
+
+(* reported equal (cost 0) although the documents differ as data, by an otherwise well-priced script *)
+Definition zero_but_different (c : script_case) : bool :=
+  spec_ok c && (cost (sc_edit c) =? 0) && negb (data_eqb (sc_a c) (sc_b c)).
 
 (* D4: Python-equal scalars of different type are "equal" inside containers: the documents are reported
    equal (cost 0), differ as data, and are equal under the implementation's own == *)
 Definition kf_cross_type_py_equal (c : script_case) : bool :=
-  (cost (sc_edit c) =? 0) && negb (data_eqb (sc_a c) (sc_b c)) && node_eqb (sc_a c) (sc_b c).
+  zero_but_different c && node_eqb (sc_a c) (sc_b c).
 
 (* D16: inserting or removing a zero-size element ("" or null) of a list of leaves costs 0:
-   reported equal, differ as data, and become equal (under ==) once zero-size leaves are dropped
-   from every list whose elements are all leaves *)
-Fixpoint strip0 (t : tree) : tree :=
-  match t with
-  | Lst a b cs => if all_leaves cs then Lst a b (filter (fun c => negb (size c =? 0)) cs) else Lst a b (map strip0 cs)
-  | Kvp a k v => Kvp a k (strip0 v)
-  | MSet a cs => MSet a (map strip0 cs)
-  | FDict cs => FDict (map strip0 cs)
-  | Leaf l => Leaf l
-  end.
-
+   reported equal, differ as data, are not ==, and become == once zero-size leaves are dropped
+   from the lists whose elements are all leaves (EqualSpec.zsim) *)
 Definition kf_zero_size_in_leaf_list (c : script_case) : bool :=
-  (cost (sc_edit c) =? 0) && negb (data_eqb (sc_a c) (sc_b c)) && negb (node_eqb (sc_a c) (sc_b c)) &&
-  node_eqb (strip0 (sc_a c)) (strip0 (sc_b c)).
+  zero_but_different c && negb (node_eqb (sc_a c) (sc_b c)) && zsim (sc_a c) (sc_b c).
+
+(* D16 at the command line: the zero-cost removal/insertion is still rendered with its change marks, so the
+   output of a pair of this class is marked although the cost is 0 and the exit status is 0 *)
+Definition kf_cli_zero_size_marked (c : cli_case) : bool :=
+  kf_zero_size_in_leaf_list (cl_lib c) && cli_exit_ok c && cl_marked c.
+
+(* the domain of the C02 theorems: documents the loaders can produce, serialised consistently *)
+Definition case_in_domain (c : script_case) : bool :=
+  wf (sc_a c) && wf (sc_b c) && numtext_ok (sc_a c) && numtext_ok (sc_b c) && consistent (sc_a c) (sc_b c).
